@@ -37,6 +37,12 @@ def c08_bytes_differ(op, g, l):
     gp, lp = g.split(" | "), l.split(" | ")
     return len(gp) >= 2 and len(lp) >= 2 and gp[1] != lp[1]
 
+def c12_outcomes_differ(op, g, l):
+    """C12: the model is the specification of which calls are accepted and which are rejected with which
+    (sticky) error. A program on which the implementation answers a call differently (first column:
+    the per-call outcome tokens) is a concrete failing input."""
+    return g.split(" | ", 1)[0] != l.split(" | ", 1)[0]
+
 def writer_prop(pid, theorems, suites, extra=None):
     d = {
         "level": "proof",
@@ -86,7 +92,8 @@ PROPS = {
     "C12": writer_prop("C12", ["sticky_write", "sticky_element", "sticky_field", "sticky_end", "sticky_fieldAny", "sticky_begin",
                                 "sticky_queries", "fail_keeps_first", "fail_records", "write_func_error_sticky", "free_safe", "after_free_sticky",
                                 "reset_clean", "closed_handle", "double_end", "no_panic", "no_panic_from", "err_persists", "sticky_program"], ["c12"],
-                       {"assumptions": ["partial: build_ok_parses is a theorem for the programs of value trees (C01.written_tree_reads_back) and Copy/Merge programs (C16.copy_preserves); for arbitrary misuse programs it is decided by the differential stream and the Go-side oracle; no_panic covers the whole alphabet incl. Copy/Merge from arbitrary bytes",
+                       {"diff_violation": c12_outcomes_differ,
+                        "assumptions": ["partial: build_ok_parses is a theorem for the programs of value trees (C01.written_tree_reads_back) and Copy/Merge programs (C16.copy_preserves); for arbitrary misuse programs it is decided by the differential stream and the Go-side oracle; no_panic covers the whole alphabet incl. Copy/Merge from arbitrary bytes",
                                         "calls through a handle kind the Go type system rejects are outside the alphabet (bad-op)"]}),
     "C16": writer_prop("C16", ["common_field_unchanged", "absent_field_zero", "order_irrelevant", "copy_preserves", "copy_any_depth"], ["c16"],
                        {"assumptions": ["copy_preserves: source message well formed (distinct tags < 2^16, self-delimiting values), written fields with distinct tags, total size below 2^32",
